@@ -78,12 +78,19 @@ impl<'a> Gen<'a> {
     }
 
     pub fn short_suffix(&mut self) -> String {
-        // bias to short, common suffixes; sometimes any
-        if self.rng.pct(60) {
-            let short: Vec<&String> = self.env.suffix_keys.iter().filter(|s| s.len() <= 3).collect();
-            (*self.rng.pick(&short)).clone()
-        } else {
-            self.rng.pick(&self.env.suffix_keys).clone()
+        // bias to short, common suffixes and to the extremes of the table (the longest
+        // keys, where length bounds live); otherwise any
+        match self.rng.weighted(&[45, 15, 40]) {
+            0 => {
+                let short: Vec<&String> = self.env.suffix_keys.iter().filter(|s| s.len() <= 3).collect();
+                (*self.rng.pick(&short)).clone()
+            }
+            1 => {
+                let mut by_len: Vec<&String> = self.env.suffix_keys.iter().collect();
+                by_len.sort_by(|a, b| b.len().cmp(&a.len()).then(a.cmp(b)));
+                by_len[self.rng.usize(12.min(by_len.len()))].clone()
+            }
+            _ => self.rng.pick(&self.env.suffix_keys).clone(),
         }
     }
 
@@ -376,6 +383,27 @@ impl<'a> Gen<'a> {
                         }
                     }
                 }
+                _ if self.rng.pct(45) => {
+                    // a short motif repeated up to the cap: a known suffix key ("er", "re",
+                    // "gulo", ...) or a few letters, so that suffix-on-suffix chains arise
+                    let motif: String = if self.rng.pct(70) {
+                        let short: Vec<&String> = self.env.suffix_keys.iter().filter(|s| s.len() <= 3).collect();
+                        (*self.rng.pick(&short)).clone()
+                    } else {
+                        let n = self.rng.range(2, 3);
+                        (0..n).map(|_| *self.rng.pick(b"erioytakn") as char).collect()
+                    };
+                    let room = cap.saturating_sub(since_term[h]).max(4);
+                    let n = if self.rng.pct(60) { room } else { self.rng.range(4, room as u64) as usize };
+                    let mc: Vec<char> = motif.chars().collect();
+                    for i in 0..n {
+                        if let Some(k) = key_for(self.env, mc[i % mc.len()]) {
+                            let s = sel(self);
+                            ops.push(Op::Key { h: hb, key: k, m: 0, sel: s });
+                        }
+                    }
+                    since_term[h] += n;
+                }
                 _ => {
                     // the same key many times
                     let key = if self.rng.coin() { key_for(self.env, *self.rng.pick(LETTERS) as char).unwrap() } else { self.sharp_key(layout) };
@@ -441,6 +469,19 @@ impl<'a> Gen<'a> {
             }
             _ => self.text(),
         };
+        // the list-shrinking shape: a word whose list loses entries when a selection-preserving
+        // punctuation mark is added (emoji by name or emoticon stops matching, ':' re-splits)
+        let shrinking = self.rng.pct(22);
+        if shrinking {
+            let head = match self.rng.weighted(&[40, 25, 20, 15]) {
+                0 => { let v = &self.env.emoji_names; if self.rng.coin() { v[self.rng.usize(20)].to_string() } else { self.rng.pick(v).to_string() } }
+                1 => { let v = &self.env.emoticons; self.rng.pick(v).to_string() }
+                2 => self.rng.pick(&self.env.autocorrect_words).clone(),
+                _ => self.word(),
+            };
+            let tail = *self.rng.pick(b":):.,;!?-_'\"") as char;
+            target = format!("{}{}", head, tail);
+        }
         target = target.chars().take(max_len).collect();
         if target.is_empty() {
             target = "a".into();
@@ -474,7 +515,10 @@ impl<'a> Gen<'a> {
             autocorrect: None,
         };
 
-        let final_key = |h: u8| Op::Key { h, key: key_for(self.env, last_char).unwrap_or(0xA096), m: 0, sel: Sel::Raw(final_byte) };
+        // the selection byte of the final key: fixed, or counted from the end of the list
+        // shown just before (the same list in every execution, so the same byte)
+        let final_sel = if shrinking || self.rng.pct(15) { Sel::Top(self.rng.below(2) as u8) } else { Sel::Raw(final_byte) };
+        let final_key = |h: u8| Op::Key { h, key: key_for(self.env, last_char).unwrap_or(0xA096), m: 0, sel: final_sel };
         // per-host op sequences
         let mut seqs: Vec<Vec<Op>> = Vec::new();
         // X0: fresh context, typed straight
@@ -551,6 +595,15 @@ impl<'a> Gen<'a> {
                 } else {
                     v.push(Op::Key { h, key: key_for(self.env, tchars[cur]).unwrap_or(0xA096), m: 0, sel: Sel::Presel });
                     cur += 1;
+                }
+            }
+            if !via_bs && self.rng.pct(if shrinking { 60 } else { 15 }) {
+                // a detour right before the final key: the list of the longer text was the
+                // last one a key produced, the backspace shows the target's list again
+                let junk = self.random_letters(1, 2);
+                self.type_text(&mut v, h, &junk, Sel::Presel);
+                for _ in 0..junk.len() {
+                    v.push(Op::Bs { h, ctrl: false });
                 }
             }
             if via_bs {
@@ -880,7 +933,7 @@ impl<'a> Gen<'a> {
     }
 
     fn empty_strings_doc(&mut self, words: &[String]) -> FileSt {
-        let w = if words.is_empty() { "desh".to_string() } else { self.rng.pick(words).clone() };
+        let w = if words.is_empty() { "desh".to_string() } else if self.rng.pct(60) { words[0].clone() } else { self.rng.pick(words).clone() };
         let core: String = w.chars().filter(|c| c.is_ascii_alphabetic()).collect();
         let docs = [
             format!("{{\"{}\":\"\"}}", core),
@@ -933,6 +986,9 @@ impl<'a> Gen<'a> {
         }
         let steps = self.rng.range(4, if self.tier == Tier::Quick { 14 } else { 22 });
         let mut fault_budget = self.rng.range(1, 4);
+        // most of a run is about one word: multi-step chains (learn it, damage a file around
+        // it, learn it again, type it with a suffix) need the same word again and again
+        let focus = words[0].clone();
         for _ in 0..steps {
             let h = self.rng.usize(n_hosts) as u8;
             // fault, placed right before the operation it should bite
@@ -1005,10 +1061,14 @@ impl<'a> Gen<'a> {
             match next {
                 0 | 6 => {
                     // a learning commit
-                    let t = if self.rng.pct(60) { self.rng.pick(&words).clone() } else {
-                        let t = self.learn_text();
-                        words.push(t.clone());
-                        t
+                    let t = match self.rng.weighted(&[45, 30, 25]) {
+                        0 => focus.clone(),
+                        1 => self.rng.pick(&words).clone(),
+                        _ => {
+                            let t = self.learn_text();
+                            words.push(t.clone());
+                            t
+                        }
                     };
                     self.type_and_refresh(&mut ops, h, &t);
                     ops.push(Op::Commit { h, idx: Idx::Other(self.rng.next_u64() as u8) });
@@ -1038,7 +1098,7 @@ impl<'a> Gen<'a> {
                 }
                 4 => {
                     // retype something (base + suffix half the time) and leave it
-                    let t = self.rng.pick(&words).clone();
+                    let t = if self.rng.coin() { focus.clone() } else { self.rng.pick(&words).clone() };
                     let t = if self.rng.coin() {
                         let core: String = t.chars().filter(|c| c.is_ascii_alphabetic()).collect();
                         format!("{}{}", core, self.short_suffix())
@@ -1048,7 +1108,7 @@ impl<'a> Gen<'a> {
                 }
                 _ => {
                     // the editor rewrites the user's auto-correct list (valid document)
-                    let w = self.rng.pick(&words).clone();
+                    let w = if self.rng.pct(60) { focus.clone() } else { self.rng.pick(&words).clone() };
                     let core: String = w.chars().filter(|c| c.is_ascii_alphabetic()).collect();
                     let value = self.autocorrect_value();
                     let doc = serde_json::json!({ core: value }).to_string();
@@ -1205,7 +1265,22 @@ impl<'a> Gen<'a> {
         ops.push(Op::Fork { h: 0 });
         // continuation K in lock step
         let k = self.rng.range(1, 6);
-        for _ in 0..k {
+        let mut cur_b = b;
+        for step in 0..k {
+            if step > 0 && self.rng.pct(20) {
+                // a further update in the middle of the continuation, applied to the used
+                // context and to the reference context alike (same layout: option flips,
+                // most often the suggestion switch back)
+                let mut c = cur_b;
+                if c.is_phonetic() && self.rng.pct(60) {
+                    c.opts ^= PHON_SUG;
+                } else {
+                    c.opts ^= 1 << self.rng.below(11);
+                }
+                ops.push(Op::Finish { h: 0 });
+                ops.push(Op::Update { h: 0, cfg: c });
+                cur_b = c;
+            }
             let w = if self.rng.pct(70) { self.rng.pick(&words).clone() } else { self.word() };
             type_word(self, &mut ops, lb, &w);
             let term = match self.rng.weighted(&[35, 30, 20, 15]) {
@@ -1375,7 +1450,23 @@ impl<'a> Gen<'a> {
         let words = self.rng.range(1, 3);
         for _ in 0..words {
             let syllables = self.rng.range(1, if self.tier == Tier::Quick { 5 } else { 6 });
-            for _ in 0..syllables {
+            let mut abandoned = false;
+            for si in 0..syllables {
+                if si > 0 && self.rng.pct(5) {
+                    // the word is abandoned while a sign is waiting in typewriter order: the
+                    // sign key on T only (nothing is shown for it), then the whole word is
+                    // deleted on both sides; nothing of it may survive into the next word
+                    let sgn = self.rng.pick(&left_signs).to_string();
+                    if let Some(op) = key(self, 1, &sgn) {
+                        ops.push(op);
+                        ops.push(Op::Mark { tag: 2 });
+                        ops.push(Op::Bs { h: 0, ctrl: true });
+                        ops.push(Op::Bs { h: 1, ctrl: true });
+                        ops.push(Op::Mark { tag: 1 });
+                        abandoned = true;
+                        break;
+                    }
+                }
                 let mut u: Vec<String> = Vec::new(); // Unicode order values
                 let mut t: Vec<String> = Vec::new(); // typewriter order values
                 let mut pending_probe = false;
@@ -1484,6 +1575,9 @@ impl<'a> Gen<'a> {
                     ops.append(&mut uo);
                 }
                 ops.push(Op::Mark { tag: 1 });
+            }
+            if abandoned {
+                continue;
             }
             if self.rng.pct(25) {
                 // the same backspaces on both sides at the end of the word: the texts are
